@@ -48,6 +48,11 @@ class Ctx:
         ] if kf.exists() else []
         self.work = VERIF / "work" / pid
         self.work.mkdir(parents=True, exist_ok=True)
+        for old in (VERIF / "replays").glob(f"{pid}-*"):
+            try:
+                old.unlink()
+            except OSError:
+                pass
 
     # ---- budgets -------------------------------------------------------
     def budget(self, quick: int, thorough: int) -> int:
